@@ -1,29 +1,35 @@
 """C07 - sort and repair tools reorder without changing content; result loads (structural clauses)."""
 from __future__ import annotations
 
+from . import scopes
 from . import lib_order, lib_schema, lib_gate, lib_module, lib_py, lib_sweep
 
 LEVEL = "other"
 EXPLANATION = ("Comparator chains are well formed and equal the documented key orders; sort keys are filled from the right "
-               "columns; sorters forward every row field; repair tools enter through the integrity gate; tree-sweep loops keep "
-               "the full termination condition; Python/C option plumbing of sort bookmarks. Does not decide idempotence or "
-               "'same trees and genotypes'.")
+               "columns; sorters forward every row field and read permuted metadata from the saved copy starting at the bookmark; "
+               "repair tools enter through the integrity gate; the mutation-parent/time sweeps keep the full termination "
+               "condition; Python/C option plumbing of sort bookmarks. Does not decide idempotence or 'same trees and genotypes'.")
 
 
 def run(ctx):
     P = ctx.program()
     py = ctx.python()
+    ps, ms = scopes.py_scope("C07"), scopes.module_scope("C07")
+    sorter = lambda f: f.startswith("tsk_table_sorter_") or f in ("tsk_table_collection_sort", "tsk_table_collection_canonicalise",
+                                                                  "tsk_table_collection_deduplicate_sites", "tsk_table_collection_compute_mutation_parents",
+                                                                  "tsk_table_collection_compute_mutation_times", "tsk_table_collection_build_index")
     lib_order.comparators(ctx, P)
     lib_order.sorter_keys(ctx, P)
     lib_order.bookmark_cursor(ctx, P)
-    lib_order.memcpy_alias(ctx, P)
-    lib_schema.argname(ctx, P, tus=("tables",))
-    lib_schema.row_forwarding(ctx, P, tus=("tables",))
+    lib_order.memcpy_alias(ctx, P, funcs=sorter)
+    lib_schema.argname(ctx, P, tus=("tables",), funcs=sorter)
+    lib_schema.row_forwarding(ctx, P, tus=("tables",), funcs=sorter)
     lib_gate.gate(ctx, P, only={"tsk_table_collection_sort", "tsk_table_collection_canonicalise", "tsk_table_collection_build_index",
                                 "tsk_table_collection_deduplicate_sites", "tsk_table_collection_compute_mutation_parents",
                                 "tsk_table_collection_compute_mutation_times", "tsk_table_sorter_init",
                                 "tsk_table_collection_individual_topological_sort"})
-    lib_sweep.sweep_conditions(ctx, P)
-    lib_module.parsed_used(ctx, P)
-    lib_py.kw_forward(ctx, py, mods=("tables",))
-    lib_py.unused_params(ctx, py, mods=("tables",))
+    lib_sweep.sweep_conditions(ctx, P, tus=["tables"])
+    lib_module.parsed_used(ctx, P, only=ms)
+    lib_py.kw_forward(ctx, py, mods=("tables",), only=ps)
+    lib_py.unused_params(ctx, py, mods=("tables",), only=ps)
+    lib_py.ll_positional(ctx, py, P, only=ps)
